@@ -370,8 +370,9 @@ def run(case: dict, ctx) -> dict:
         if e["out"] > gb:
             res["viol"].append({"what": "grain inflated beyond the grain size", "mech": "vmdk.inflate", "detail": e})
             break
-    if k == "stream" and not infl and "A" in (meta.get("states") or ""):
-        res["viol"].append({"what": "compressed extent read without any inflate call observed", "mech": "harness.monitor", "detail": {}})
+    # (a single case may well miss every allocated grain of a large, almost empty extent; that the inflate monitor sees the
+    # reader at all is a property of the whole run: MINIMA["compressed_grains_inflated"])
+    res["cnt"]["stream_cases_without_inflate"] = int(k == "stream" and not infl)
     if fh.mutations:
         res["viol"].append({"what": "handle mutated", "mech": "c09.handle", "detail": {"m": fh.mutations[:3]}})
     res["cnt"][f"{k}_cases"] = 1
